@@ -42,6 +42,9 @@ type session struct {
 
 	// Mutex for access to toSend.
 	sendMutex sync.Mutex
+	// closed is set (under sendMutex) when the run loop has ended: the engine the session belongs to
+	// has been stopped and another one may be using the store.
+	closed bool
 	// Mutex to prevent messages being sent when resendRequest is active
 	// Must be locked before sendMutex to prevent a potential deadlock
 	resendMutex sync.RWMutex
@@ -103,6 +106,8 @@ func (s *session) connect(msgIn <-chan fixIn, msgOut chan<- []byte) error {
 }
 
 type stopReq struct{}
+
+var errSessionStopped = errors.New("session has been stopped")
 
 func (s *session) stop() {
 	// Stop once.
@@ -307,6 +312,10 @@ func (s *session) queueForSend(msg *Message) error {
 	s.sendMutex.Lock()
 	defer s.sendMutex.Unlock()
 
+	if s.closed {
+		return errSessionStopped
+	}
+
 	msgBytes, err := s.prepMessageForSend(msg, nil)
 	if err != nil {
 		return err
@@ -341,6 +350,10 @@ func (s *session) sendInReplyTo(msg *Message, inReplyTo *Message) error {
 
 	s.sendMutex.Lock()
 	defer s.sendMutex.Unlock()
+
+	if s.closed {
+		return errSessionStopped
+	}
 
 	msgBytes, err := s.prepMessageForSend(msg, inReplyTo)
 	if err != nil {
@@ -1005,7 +1018,18 @@ func (s *session) run() {
 		s.stateTimer.Stop()
 		s.peerTimer.Stop()
 		ticker.Stop()
+
+		// Stopping waits for a send that is under way (it holds the send mutex: its number has been read
+		// and its message may not be in the store yet) and nothing is numbered through this session
+		// afterwards: an engine recreated on the same store numbers from what the store says then.
+		s.sendMutex.Lock()
+		s.closed = true
+		s.sendMutex.Unlock()
 	}()
+
+	s.sendMutex.Lock()
+	s.closed = false
+	s.sendMutex.Unlock()
 
 	for !s.Stopped() {
 		select {
